@@ -383,7 +383,7 @@ class C14(Check):
                 body = b'B' * rng.choice([0, 1, 5, 12])
                 seen = run_wsgi(ops, body)
                 if seen.get('exc') is not None:
-                    ans = 'wsgi-500'
+                    ans = f'wsgi-500 out={",".join(seen["outs"])} hl={show_hl(seen["headers"])}'
                 else:
                     ans = (f'out={",".join(seen["outs"])} st={status_code_of(seen["status"])} '
                            f'hl={show_hl(seen["headers"])}')
@@ -391,8 +391,10 @@ class C14(Check):
                 bump('mode:wsgi')
                 final_status = status_code_of(seen.get('status'))
             bump(f'final-status:{final_status}')
-            for o in ans.split(' ')[0][4:].split(','):
+            for o in [t for t in ans.split(' ') if t.startswith('out=')][0][4:].split(','):
                 bump('outcome:' + o)
+            if ans.startswith('wsgi-500'):
+                bump('wsgi-catch-all')
         return out
 
     # ------------------------------------------------------------------
@@ -426,9 +428,6 @@ class C14(Check):
         bad = []
         if mode == 'wsgi':
             seen = run_wsgi(ops, b'B' * body_len)
-            if seen.get('exc') is not None:
-                bad.append(('C14:wsgi-500', 'the WSGI call fell into the catch-all 500 branch'))
-                return bad
             outs = seen['outs']
             bad += self._check_emitted(seen['headers'], 'start_response', status_code_of(seen['status']))
             # rejected values must have raised
